@@ -192,6 +192,9 @@ func (m *model) jsBody(i int) comp {
 		if f.Via == "forofbody" && c.kind == "throw" {
 			m.emit(Event{K: "ir", F: i, P: -1}) // IteratorClose on a throw completion of the loop body
 		}
+		if f.Via == "destruct" && c.kind == "ok" {
+			m.emit(Event{K: "ir", F: i, P: -1}) // `var [d] = it`: the iterator is not exhausted, so it is closed
+		}
 	}
 	if c.kind == "ok" {
 		m.emit(Event{K: "a", F: i, P: -1})
